@@ -306,9 +306,10 @@ class RP(StandIn):
 
 def r16_4(ctx):
     out = Outcome("R16.4", "Primitive.circle: ndivangle quadratic arcs chained through shared end-point objects and "
-                           "closed on the first start object; step +tau/ndivangle; moved to the centre", floor=2)
+                           "closed on the first start object; step +tau/ndivangle; moved to the centre", floor=4)
     fn = ctx.fn("primitive.Primitive.circle")
-    for n in (4, 7):
+    # ... also to a centre on one of the axes (one coordinate zero: still a translation)
+    for n, centre in ((4, (Fr(5), Fr(7))), (7, (Fr(5), Fr(7))), (4, (Fr(3), Fr(0))), (5, (Fr(0), Fr(-2)))):
         segs, moved, state = [], [], {}
 
         def hook(rn, ev, call, name, recv, args, kwargs):
@@ -340,9 +341,9 @@ def r16_4(ctx):
                 return "SHAPE"
             return NotImplemented
         try:
-            got = Runner(ctx, set(), hook, asserts=True).call_fn(fn, [], {"radius": Fr(3), "center": (Fr(5), Fr(7)), "ndivangle": n})
+            got = Runner(ctx, set(), hook, asserts=True).call_fn(fn, [], {"radius": Fr(3), "center": centre, "ndivangle": n})
         except (Undecided, Raised) as ex:
-            out.undecided(fn.qname, f"ndivangle={n}: {ex}", where=fn.where())
+            out.undecided(fn.qname, f"ndivangle={n}, centre ({centre[0]}, {centre[1]}): {ex}", where=fn.where())
             continue
         chain = state.get("chain", [])
         errs = []
@@ -373,15 +374,15 @@ def r16_4(ctx):
             h = state.get("height")
             if not errs and not (isinstance(h, tuple) and h[0] == "tan" and abs(h[1] - step / 2) < 1e-12):
                 errs.append(f"middle control point height is {h}, required tan(angle/2)")
-        if not errs and (len(moved) != 1 or not (isinstance(moved[0][0], PV) and (moved[0][0].x, moved[0][0].y) == (5, 7))):
-            errs.append(f"curve not moved to the centre: {moved}")
+        if not errs and (len(moved) != 1 or not (isinstance(moved[0][0], PV) and (moved[0][0].x, moved[0][0].y) == centre)):
+            errs.append(f"curve not moved to the centre ({centre[0]}, {centre[1]}): {moved}")
         if not errs and (got != "SHAPE" or state.get("shape_of") is None):
             errs.append("does not return SimpleShape(curve)")
         if errs:
             out.bad(fn.qname, "circle is not a closed chain of ndivangle rotated arcs about the centre", where=fn.where(),
-                    detail=f"ndivangle={n}: " + "; ".join(errs))
+                    detail=f"ndivangle={n}, centre ({centre[0]}, {centre[1]}): " + "; ".join(errs))
         else:
-            out.ok(fn.qname, f"ndivangle={n}: closed chain of {n} arcs, step tau/{n}, radius and centre applied", where=fn.where())
+            out.ok(fn.qname, f"ndivangle={n}, centre ({centre[0]}, {centre[1]}): closed chain of {n} arcs, step tau/{n}, radius and centre applied", where=fn.where())
     return out
 
 
